@@ -783,7 +783,9 @@ def count_term(ex, mask_term, n):
         ax = ex.ctx.global_axioms
         ax.append(z3.ForAll([k], z3.Select(M, k) == z3.Select(mask_term, k), patterns=[z3.Select(M, k)]))
         ax.append(z3.ForAll([k], z3.Implies(k <= 0, C(k) == 0), patterns=[C(k)]))
-        ax.append(z3.ForAll([k], z3.Implies(k >= 1, C(k) == C(k - 1) + z3.If(z3.Select(M, k - 1), 1, 0)), patterns=[C(k)]))
+        # defining step, triggered only when both counts are already present (no new terms: no matching loop)
+        ax.append(z3.ForAll([a, b], z3.Implies(z3.And(a >= 0, b == a + 1), C(b) == C(a) + z3.If(z3.Select(M, a), 1, 0)),
+                            patterns=[z3.MultiPattern(C(a), C(b))]))
         ax.append(z3.ForAll([a, b], z3.Implies(a <= b, z3.And(C(a) <= C(b), C(b) - C(a) <= z3.If(b < 0, 0, b) - z3.If(a < 0, 0, a))),
                             patterns=[z3.MultiPattern(C(a), C(b))]))
         ax.append(z3.ForAll([k], z3.And(C(k) >= 0, C(k) <= z3.If(k < 0, 0, k)), patterns=[C(k)]))
@@ -822,3 +824,39 @@ def sp_count(ex, args, kwargs, node):
     from .npmodels import truthy
     body = to_z3(truthy(ex.eval(lam.node.body, e2, _SpecFrame(ex))), "bool")
     return count_term(ex, z3.Lambda([k], body), hi)
+
+
+# ---------------------------------------------------------------------------------------------- views: flip / expand_dims
+def _view_of(a, out_shape, mp, name):
+    root, rootmap = a, mp
+    if a.base is not None:
+        b, bmp = a.base
+        root, rootmap = b, (lambda o: bmp(mp(o)))
+    return Arr(None, out_shape, a.kind, name=a.name + name, base=(root, rootmap), ghost=a.ghost)
+
+
+@model("numpy.flip")
+def np_flip(ex, args, kwargs, node):
+    """np.flip(a, axis=k): a VIEW of a with axis k reversed (writes through it reach a)"""
+    a = args[0]
+    axis = kwargs.get("axis", args[1] if len(args) > 1 else None)
+    if not isinstance(a, Arr) or not isinstance(axis, int) or isinstance(axis, bool):
+        raise Unsupported("np.flip of something else than an array along one literal axis")
+    ax = axis if axis >= 0 else axis + a.rank
+    if not 0 <= ax < a.rank:
+        raise Unsupported("np.flip axis out of range")
+    n = to_z3(a.shape[ax], "int")
+
+    def mp(o):
+        return tuple((n - 1 - o[d]) if d == ax else o[d] for d in range(a.rank))
+    return _view_of(a, list(a.shape), mp, "[flip]")
+
+
+@model("numpy.expand_dims")
+def np_expand_dims(ex, args, kwargs, node):
+    """np.expand_dims(a, axis=0): a VIEW of a with a new leading axis of length 1"""
+    a = args[0]
+    axis = kwargs.get("axis", args[1] if len(args) > 1 else None)
+    if not isinstance(a, Arr) or axis != 0:
+        raise Unsupported("np.expand_dims other than a new leading axis of an array")
+    return _view_of(a, [1] + list(a.shape), lambda o: tuple(o[1:]), "[None]")
